@@ -2,6 +2,7 @@
 import random
 from urllib.parse import urlsplit
 
+from bcheck import history
 from bcheck.common import Collector, args, run_sharded, call
 from bcheck import urlref as R
 
@@ -20,7 +21,11 @@ def host_of_result(res):
 
 HOSTS = ["a.com", "www.a.com", "WWW.A.Com", "m.a.com", "mobile.a.co.uk", "amp.a.com", "amp-x.a.com", "fr.a.com", "fr-FR.facebook.com", "www.fr.a.com", "fr.www.a.com",
          "xn--tlrama-bvab.fr", "télérama.fr", "a.co.uk", "fr.co.uk", "de.a.com.au", "forum-m.a.com", "a.com.", "blog.a.pvt.k12.ma.us", "localhost", "127.0.0.1", "fr.com", "us.gov",
-         "en.wikipedia.org", "zz.a.com", "www2.fr-be.a.org", "xn--amp-caf-hya.fr"]
+         "en.wikipedia.org", "zz.a.com", "www2.fr-be.a.org", "xn--amp-caf-hya.fr",
+         # case FOLDING differs from lower-casing here (sharp s, final sigma, ligature)
+         "straße.de", "www.Fußball.de", "fr.ελλάς.gr", "ﬁsh.co.uk",
+         # nothing but irrelevant labels (the host empties out)
+         "www.", "www.m.", "amp-"]
 # given to the bare-hostname helpers only (inside a URL a blank in the authority is not a hostname any more)
 HOSTS_BARE_ONLY = ["\x00 www.a.com", " A.com\x00", "\tFR.a.com "]
 
@@ -164,6 +169,8 @@ def shard(job):
 def main():
     a = args("C07")
     col = Collector("C07", a.tier, a.seed)
+    if a.replay and history.replayed(a, col, "C07"):
+        return
     if a.replay:
         import json
         inp = json.load(open(a.replay))["input"]
@@ -195,6 +202,7 @@ def main():
                 "(fixed + seeded random label combinations) x strip_suffix, normalize_amp, infer_redirection, suffix_aware. Oracle = the URL-level function's own result: "
                 "host parsed by urlsplit from normalize_url / fingerprint_url, lru_stems of the canonicalized / normalized / fingerprinted URL (scheme stem removed when the "
                 "scheme was stripped), urlsplit(ensure_protocol(u)).hostname. distinct_nontrivial = (family, input) pairs that reached a comparison")
+    history.run(col, "C07", a.tier == "quick")
     col.dump(a.out)
 
 
